@@ -147,3 +147,92 @@ def full_model(scns, drv, fidx=0):
     for o, mo in zip(out, drv.run(tcases)):
         o['mobs'] = mo
     return out
+
+
+# --------------------------------------------------------------------------
+# whole runs (any number of files): seeker model per file, then the `run` model
+# --------------------------------------------------------------------------
+
+def catalog_order(scn):
+    """ file indices in catalog order (first registration) and registrations per file """
+    order, nregs = [], {}
+    for r in scn['regs']:
+        targets = [r[1]] if isinstance(r[1], int) else scn.get('_expanded', {}).get(r[1], [])
+        for f in targets:
+            if f not in order:
+                order.append(f)
+            nregs[f] = nregs.get(f, 0) + 1
+    return order, nregs
+
+
+def run_models(scns, drv, persists=None):
+    """
+    Model observation of `FileSearcher.run()` for each scenario:
+    dict(order, paths {file name: canonical results}, stats | errs, vals).
+    """
+    from vh import seekcheck as K
+    consts = K.live_constants()
+    seek_keys, seek_cases = [], []
+    for i, scn in enumerate(scns):
+        order, _ = catalog_order(scn)
+        for f in order:
+            content = S.file_bytes(scn['files'][f])
+            if S.global_applies(scn, f) and len(S.file_disk_bytes(scn['files'][f])) > 0:
+                cons = scn['constraints'][scn['global']]
+                seek_keys.append((i, f))
+                seek_cases.append(K.seek_case(content, cons, [['apply']], consts))
+    seek_out = dict(zip(seek_keys, drv.run(seek_cases)))
+    cases, interns = [], []
+    for i, scn in enumerate(scns):
+        order, nregs = catalog_order(scn)
+        intern = S.Interner()
+        jobs = []
+        for f in order:
+            pos = 0
+            so = seek_out.get((i, f))
+            if so is not None:
+                ap = so['model']['outs'][0]['apply']
+                pos = ap.get('pos', 0)
+            tcase, _ = S.task_case(scn, f, start=pos, intern=intern)
+            jobs.append({'task': tcase, 'nregs': nregs[f],
+                         'empty': len(S.file_disk_bytes(scn['files'][f])) == 0})
+        persist = (persists[i] if persists else None) or []
+        cases.append({'kind': 'run', 'K': S.scenario_K(scn), 'jobs': jobs, 'persist': persist})
+        interns.append(intern)
+    out = []
+    for scn, intern, mo in zip(scns, interns, drv.run(cases)):
+        m = mo['model']
+        order, _ = catalog_order(scn)
+        o = {'order': order, 'persistOk': m['persistOk'], 'vals': intern.val}
+        if 'errs' in m:
+            o['errs'] = m['errs']
+        else:
+            o['paths'] = {scn['files'][f]['name']: S.canon_model_results(rs, intern)
+                          for f, rs in zip(order, m['paths'])}
+            o['stats'] = m['stats']
+        out.append(o)
+    return out
+
+
+def compare_run(scn, impl, mrun, check_stats=True):
+    """ None if the real run and the model agree, else a description """
+    if 'err' in impl or 'errs' in mrun:
+        ie = impl.get('err')
+        if 'errs' in mrun:
+            return None if ie in mrun['errs'] else \
+                f"outcome: impl={ie or 'returned'} model raises one of {mrun['errs']}"
+        return f"outcome: impl raised {ie}, model returns"
+    names = {f['name'] for f in scn['files']}
+    for name in sorted(names | set(impl['paths'])):
+        diff = compare_results(impl['paths'].get(name, []), mrun['paths'].get(name, []))
+        if diff:
+            return f"path {name}: {diff}"
+    if check_stats:
+        ist, mst = impl['stats'], mrun['stats']
+        for k in ('lines', 'results', 'searches', 'searches_by_job', 'jobs_completed',
+                  'total_jobs'):
+            if ist[k] != mst[k]:
+                return f"stats[{k}]: impl={ist[k]} model={mst[k]}"
+        if impl['len'] != mst['results']:
+            return f"len(results)={impl['len']} model results={mst['results']}"
+    return None
